@@ -33,7 +33,7 @@ func (p IP6) NextHeader() uint8  { return p[6] }                                
 func (p IP6) HopLimit() uint8    { return p[7] }                                          // hop limit
 func (p IP6) Src() netip.Addr    { return netip.AddrFrom16(*(*[16]byte)(p[8:24])) }       // source address
 func (p IP6) Dst() netip.Addr    { return netip.AddrFrom16(*(*[16]byte)(p[24:40])) }      // destination address
-func (p IP6) Payload() []byte    { return p[IP6HeaderLen:] }
+func (p IP6) Payload() []byte    { return p[IP6HeaderLen : IP6HeaderLen+int(p.PayloadLen())] }
 func (p IP6) HeaderLen() int     { return IP6HeaderLen }
 func (p IP6) String() string {
 	return Logger.Msg("").Struct(p).ToString()
@@ -84,8 +84,8 @@ func (p IP6) AppendPayload(b []byte, nextHeader uint8) (IP6, error) {
 		return nil, ErrPayloadTooBig
 	}
 	p = p[:len(p)+len(b)] // change slice in case slice is less than 40
+	binary.BigEndian.PutUint16(p[4:6], uint16(len(b))) // payload length first: Payload() spans it
 	copy(p.Payload(), b)
-	binary.BigEndian.PutUint16(p[4:6], uint16(len(b)))
 	p[6] = nextHeader
 	return p, nil
 }
